@@ -34,6 +34,18 @@ CallsOk(ev) ==
   \* a successful session has consumed the whole input (CSV: with_bounds stops before the end)
   /\ (ev.fmt \in ByteFormats \ {"csv"} /\ ev.out = "ok") => ev.tot = ev.n
 
+(* the harness itself: with a BufRead-like source every call is offered exactly the rest of the  *)
+(* current chunk (nothing skipped, nothing presented twice; 0 bytes only at the end of the input) *)
+RECURSIVE WindowOk(_, _, _)
+WindowOk(ev, i, pos) ==
+  IF i > Len(ev.offered) THEN TRUE
+  ELSE LET later == {e \in {ev.cuts[j] : j \in DOMAIN ev.cuts} \cup {ev.n} : e > pos}
+           want == IF later = {} THEN 0 ELSE (CHOOSE e \in later : \A e2 \in later : e <= e2) - pos
+       IN ev.offered[i] = want /\ WindowOk(ev, i + 1, pos + ev.consumed[i])
+ProtocolOk(ev) ==
+  (ev.fmt \in {"ipc", "csv", "json", "avro-ocf"} /\ ev.mode \in {"canon", "slice"} /\ Len(ev.offered) = ev.ncalls
+     /\ Len(ev.consumed) = ev.ncalls) => WindowOk(ev, 1, 0)
+
 NonEmptyBatches(ev) == ev.bs = 0 \/ \A i \in DOMAIN ev.batches : Len(ev.batches[i]) >= 1
 
 (* ---- known finding (DESIGN 5.1): Avro single-object / Confluent framing, a chunk boundary ---- *)
@@ -95,6 +107,7 @@ Session(ev) ==
   /\ Judge(BatchBound(ev.batches, ev.bs), l, <<"batch > batch_size", ev.fmt>>)
   /\ Judge(NonEmptyBatches(ev), l, <<"empty batch emitted", ev.fmt>>)
   /\ Judge(CallsOk(ev), l, <<"consumed/offered", ev.fmt>>)
+  /\ Judge(ProtocolOk(ev), l, <<"harness left the protocol", ev.fmt>>)
   /\ IF ~base.set
      THEN /\ base' = [set |-> TRUE, out |-> ev.out, cls |-> ev.cls, rows |-> Rows(ev), schema |-> ev.schema]
           /\ Judge(ev.cuts = <<>> /\ ev.mode = "canon", l, "a group must start with the whole input")
